@@ -92,7 +92,7 @@ def r1(ctx):
     rets = _ret_exprs(f)
     ctx.require(len(rets) == 1, "C25.R1: _build_shell_command has not exactly one return")
     key, value = _env_pair(f)
-    frs = check_quoting(ctx, "R1", f, rets[0], rets[0], trusted={"command", "end_marker", key}, what="_build_shell_command")
+    frs = check_quoting(ctx, "R1", f, rets[0], rets[0], trusted={"command", "end_marker", "random_name()", key}, what="_build_shell_command")
     # inner subshell parts are quoted values too
     inner_ok = True
     for n in f.body_nodes():
